@@ -21,7 +21,7 @@ func init() {
 		Run:      runC08,
 		Explanation: "Decides structural necessary conditions of 'a lifecycler edits only its own ring entry and follows the state machine' over all methods (and closures) of Lifecycler, BasicLifecycler and every BasicLifecyclerDelegate implementation: (R1) every AddIngester/RemoveIngester/ClaimTokens call and every store/delete on a Desc.Ingesters map is keyed by the lifecycler's own identifier (canonical provenance), with the two documented exceptions each carrying its own guard obligation (token hand-over targets the own id; auto-forget removes exactly when time.Since(last heartbeat) > forget period, under no other condition); " +
 			"(R2) the transition guard of Lifecycler.changeState, evaluated over all 25 (current,new) pairs, admits only edges of the property's table; every other setState call and every constant rewrite of the own entry's State is one of the frozen sites with an allowed edge; (R3) a fresh time.Now() reaches the registration time only on 'own entry missing' paths, otherwise the ring's recorded value is kept; " +
-			"(R4) GenerateTokens always receives taken tokens derived from the ring passed to the enclosing CAS callback; (R5) readiness latch: ready=true only after the health check returned nil, and the health check returns nil only after tokens>0 and IsReady; (R7) every token list published (AddIngester argument, store into an entry's Tokens, setTokens) is sorted: a sort call dominates the use or the value comes from a sorted source. Also: (R6) single actor: exported lifecycler methods reach a KV CAS only through the actor loop; (R8) tokens inherited from the ring are kept: a heartbeat re-publishes the ring entry's tokens when the entry exists, the remembered ones only when it is missing; (R10) every waiting phase of both lifecyclers heartbeats from a ticker it creates itself with the configured period; (R11) the own entry is removed at one place per lifecycler: in stopping, on the actor itself, after the last heartbeat of the shutdown loop; (R12) the token check before ACTIVE accepts only lists of equal length (a subset of the picked tokens is not 'the same tokens'). NOT decided: heartbeat cadence, timestamp monotonicity (clock), the token count at activation beyond the top-up arithmetic of R9 (target − held, appended to the held list), behaviour of user-supplied delegates.",
+			"(R4) GenerateTokens always receives taken tokens derived from the ring passed to the enclosing CAS callback; (R5) readiness latch: ready=true only after the health check returned nil, and the health check returns nil only after tokens>0 and IsReady; (R7) every token list published (AddIngester argument, store into an entry's Tokens, setTokens) is sorted: a sort call dominates the use or the value comes from a sorted source. Also: (R6) single actor: exported lifecycler methods reach a KV CAS only through the actor loop; (R8) tokens inherited from the ring are kept: a heartbeat re-publishes the ring entry's tokens when the entry exists, the remembered ones only when it is missing; (R10) every waiting phase of both lifecyclers heartbeats from a ticker it creates itself with the configured period; (R11) the own entry is removed at one place per lifecycler: in stopping, on the actor itself, after the last heartbeat of the shutdown loop; (R12) the token check before ACTIVE accepts only lists of equal length (a subset of the picked tokens is not 'the same tokens'). (R13) heartbeat timestamps are readings of the wall clock: no store to InstanceDesc.Timestamp is computed from the previous timestamp. NOT decided: heartbeat cadence, timestamp monotonicity (clock), the token count at activation beyond the top-up arithmetic of R9 (target − held, appended to the held list), behaviour of user-supplied delegates.",
 	}
 }
 
